@@ -41,7 +41,26 @@ def smt2_of(pc, goal):
     return s.to_smt2()
 
 
+_PRIMED = None
+
+
+def _quote_primed(text):
+    """z3 prints symbols such as  retries'  unquoted; cvc5 1.0 wants |retries'| (string literals untouched)"""
+    global _PRIMED
+    import re
+    if "'" not in text:
+        return text
+    if _PRIMED is None:
+        _PRIMED = re.compile(r"(?<![|\w.!$#'])([A-Za-z_][\w.!$#]*'+)(?![|\w'])")
+    parts = text.split('"')
+    for i in range(0, len(parts), 2):
+        parts[i] = _PRIMED.sub(r'|\1|', parts[i])
+    return '"'.join(parts)
+
+
 def _run_cli(cmd, text, timeout):
+    if cmd and 'cvc5' in cmd[0]:
+        text = _quote_primed(text)
     with tempfile.NamedTemporaryFile('w', suffix='.smt2', delete=False, dir=os.environ.get('PYVC_TMP')) as f:
         f.write(text)
         path = f.name
@@ -88,10 +107,34 @@ def check_valid(pc, goal, want_model=True, timeout_ms=None, use_cli=True):
     return 'unknown', 'z3+cvc5', time.time() - t0, None, '; '.join(outs)
 
 
+SECOND_SPENT = 0.0                                            # seconds this process spent on second opinions
+SECOND_BUDGET_S = float(os.environ.get('PYVC_SECOND_BUDGET_S', '90'))      # per worker process
+
+
 def second_opinion(pc, goal):
     """thorough tier: re-check a discharged obligation with cvc5 on the SMT-LIB dump"""
     if not shutil.which('cvc5'):
         return 'skipped'
-    out, _ = _run_cli(['cvc5', '--strings-exp', '--tlimit=%d' % (CLI_TIMEOUT_S * 1000)], smt2_of(pc, goal),
-                      CLI_TIMEOUT_S + 5)
-    return out
+    global SECOND_SPENT
+    if SECOND_SPENT > SECOND_BUDGET_S:
+        return 'skipped-budget'
+    text = smt2_of(pc, goal)
+    limit = min(CLI_TIMEOUT_S, 4)
+    out, dt = _run_cli(['cvc5', '--strings-exp', '--tlimit=%d' % (limit * 1000)], text, limit + 5)
+    SECOND_SPENT += dt
+    if out == '' or 'interrupted' in out:
+        out = 'timeout'
+    if out in ('sat', 'unsat'):
+        return '%s (cvc5)' % out
+    if out not in ('unknown', 'timeout'):
+        if os.environ.get('PYVC_DEBUG_SECOND'):
+            with open(os.path.join(os.environ['PYVC_DEBUG_SECOND'], 'fail%d.smt2' % (hash(text) % 100000)), 'w') as f:
+                f.write(out + '\n' + text)
+        out = 'cvc5-error'
+    # cvc5 1.0 gives up on some string orderings that z3 decides: ask the OTHER z3 build (Debian 4.8.12, not the 5.1 wheel)
+    if os.path.exists('/usr/bin/z3'):
+        out2, dt = _run_cli(['/usr/bin/z3', '-T:%d' % limit], text, limit + 5)
+        SECOND_SPENT += dt
+        if out2 in ('sat', 'unsat'):
+            return '%s (z3-4.8.12 after cvc5 %s)' % (out2, out)
+    return 'no second opinion (cvc5 %s)' % out
